@@ -352,7 +352,7 @@ func randDef(r *kit.Rng) def {
 
 // variant changes exactly one parameter of d.  what: 0 tuning, 1 useClusterSize, 2 rate, 3 kind,
 // 4 extra field, 5 field order only (same configuration as far as sampling goes),
-// 6 two fields joined with a space (collides).
+// 6 two fields joined with a space (collides), 8 root. prefixes toggled, 9 computed / empty names added.
 func variant(r *kit.Rng, d def, what int) def {
 	v := d
 	v.fields = append([]string{}, d.fields...)
@@ -382,6 +382,22 @@ func variant(r *kit.Rng, d def, what int) def {
 	case 5:
 		for i, j := 0, len(v.fields)-1; i < j; i, j = i+1, j-1 {
 			v.fields[i], v.fields[j] = v.fields[j], v.fields[i]
+		}
+	case 8: // `root.` prefix on one or more names: a different definition (root-span value vs any span's)
+		k := 1 + r.Intn(len(v.fields))
+		for i := 0; i < k; i++ {
+			j := r.Intn(len(v.fields))
+			if strings.HasPrefix(v.fields[j], "root.") {
+				v.fields[j] = strings.TrimPrefix(v.fields[j], "root.")
+			} else {
+				v.fields[j] = "root." + v.fields[j]
+			}
+		}
+	case 9: // extra names that are not span fields: computed (?.) fields, an empty name
+		extra := []string{"?.NUM_DESCENDANTS", "", "?.x"}
+		v.fields = append(v.fields, extra[r.Intn(len(extra))])
+		if r.Chance(30) {
+			v.fields = append([]string{extra[r.Intn(len(extra))]}, v.fields...)
 		}
 	case 6:
 		if len(v.fields) >= 2 {
@@ -432,6 +448,18 @@ func (comp) Gen(r *kit.Rng, maxLen int, tier string) kit.Case {
 					e1.fields = []string{""}
 					pool = append(pool, e0, e1)
 				}
+			}
+		}
+	}
+	if r.Chance(35) {
+		// same type and rate, field lists that differ only in `root.` prefixes or in names that are no span fields
+		for _, b := range base {
+			pool = append(pool, variant(r, b, 8))
+			if r.Chance(50) {
+				pool = append(pool, variant(r, variant(r, b, 8), 8))
+			}
+			if r.Chance(50) {
+				pool = append(pool, variant(r, b, 9))
 			}
 		}
 	}
